@@ -429,9 +429,9 @@ static void on_thread(int thr, std::function<void()> fn) { if (thr == cur_thr ||
 // operations
 // ------------------------------------------------------------------------------------------
 enum Kind : uint8_t { K_MALLOC, K_CALLOC, K_REALLOC, K_AMALLOC, K_AREALLOC, K_PMEMALIGN, K_FREE, K_MSIZE, K_CHECK, K_CLEAN_THR, K_CLEAN_ALL,
-                      K_THR_EXIT, K_RESET, K_IDENTIFY, K_CXX, K_NKINDS };
+                      K_THR_EXIT, K_RESET, K_IDENTIFY, K_CXX, K_FILL /* macro: malloc(size) again and again until the space refuses (at most 48 times) */, K_NKINDS };
 static const char* KNAME[] = {"malloc", "calloc", "realloc", "aligned_malloc", "aligned_realloc", "posix_memalign", "free", "msize", "check", "clean_thread",
-                              "clean_all", "thread_exit", "pool_reset", "pool_identify", "cxx_allocate"};
+                              "clean_all", "thread_exit", "pool_reset", "pool_identify", "cxx_allocate", "fill"};
 struct Op { Kind kind; uint8_t space, thr, fill_msize; size_t size, nobj, align; unsigned slot; };
 
 // size-class borders taken from the sources (frontend.cpp: 8..64 step 8 with the 16-byte rule, 80..1024 segregated, fitting sizes, large objects from
@@ -841,6 +841,11 @@ static void run_ops(const std::vector<Op>& ops, unsigned check_every) {
     size_t i = 0, n = ops.size();
     auto one = [&](size_t j) {
         g_opno = (unsigned)j;
+        if (ops[j].kind == K_FILL) {        // fill the space up (a fixed pool gets completely full), so that later frees open holes between live neighbours
+            Op m = ops[j]; m.kind = K_MALLOC; unsigned f0 = RI.alloc_failed; cls("op:fill");
+            for (int k = 0; k < 48 && RI.alloc_failed == f0; k++) exec_op(m);
+            if (RI.alloc_failed != f0) cls("fill_reached_refusal");
+        } else
         exec_op(ops[j]);
         if ((j + 1) % check_every == 0) check_all("periodic check point");
     };
